@@ -1,2 +1,32 @@
+(* C19 — Every held request is answered exactly once. Only statements here. *)
 From Coq Require Import List ZArith.
-Require Import MTX.Model.PathSM.
+Require Import MTX.Lib.Trace MTX.Model.PathSM MTX.Proofs.PathSM MTX.Proofs.PathSM_Thms.
+Import ListNotations.
+Local Open Scope Z_scope.
+
+(* after every history of the (repaired) loop: if a request is on hold, the path is alive, the matching
+   on-demand automaton is waiting for its source, the demand (command / source) runs and the start timer
+   is armed: the request will be answered by stream-ready, by the timeout or by the end of the path *)
+Theorem C19_held_has_deadline : forall cf ops,
+  conf_ok cf = true ->
+  let s := final step (init_state cf) ops in
+  held s <> [] -> s_closed s = false /\ has_deadline s.
+Proof. exact c19_held_has_deadline. Qed.
+Print Assumptions C19_held_has_deadline.
+
+(* the finding: before the repair (fix: commit 21d36a9 in the repository) the statement was false *)
+Theorem C19_held_has_deadline_refuted :
+  exists cf ops,
+    conf_ok cf = true /\
+    let s := final step_unfixed (init_state cf) ops in
+    held s = [3] /\ s_closed s = false /\ ~ has_deadline s /\
+    s_pubReadyT s = false /\ s_pubCloseT s = false /\ s_hUnDemand s = false /\
+    ~ In 3 (keys (fun e => match e with EAnswer q _ => Some q | _ => None end)
+                 (trace step_unfixed (init_state cf) ops)).
+Proof. exact c19_held_has_deadline_refuted. Qed.
+Print Assumptions C19_held_has_deadline_refuted.
+
+Example C19_witness_repaired :
+  let s := final step (init_state c19_witness_conf) c19_witness_ops in
+  held s = [3] /\ s_pubState s = OdWaiting /\ s_pubReadyT s = true /\ s_hUnDemand s = true.
+Proof. exact c19_witness_repaired. Qed.
